@@ -31,3 +31,57 @@ def views(stage: str, scfg: Any, inp: Any) -> Dict[str, Any]:
 
     rec(scfg, str(scfg.region.name), 0)
     return out
+
+
+def roundtrip(stage: str, scfg: Any, inp: Any) -> Dict[str, Any]:
+    """C15: write / read / write / read through the dictionary and the YAML path."""
+    from numba_scfg.core.datastructures.scfg import SCFG
+
+    from .project import project
+
+    out: Dict[str, Any] = {}
+    for path in ("dict", "yaml"):
+        rec: Dict[str, Any] = {"excw": "", "excr": "", "excw2": "", "excr2": "", "H2": {}, "H3": {}, "root2": "", "d1": {}, "d2": {}}
+        try:
+            d1 = scfg.to_dict() if path == "dict" else scfg.to_yaml()
+        except Exception as e:
+            rec["excw"] = exc_sig(e)
+            out[path] = rec
+            continue
+        rec["d1"] = d1
+        try:
+            g2, _ = SCFG.from_dict(d1) if path == "dict" else SCFG.from_yaml(d1)
+            st2 = project(g2)
+            rec["H2"], rec["root2"] = st2["H"], st2["root"]
+        except Exception as e:
+            rec["excr"] = exc_sig(e)
+            out[path] = rec
+            continue
+        try:
+            d2 = g2.to_dict() if path == "dict" else g2.to_yaml()
+            rec["d2"] = d2
+        except Exception as e:
+            rec["excw2"] = exc_sig(e)
+            out[path] = rec
+            continue
+        try:
+            g3, _ = SCFG.from_dict(d2) if path == "dict" else SCFG.from_yaml(d2)
+            rec["H3"] = project(g3)["H"]
+        except Exception as e:
+            rec["excr2"] = exc_sig(e)
+        out[path] = rec
+    return out
+
+
+def roundtrip_cases(case: Dict[str, Any]):
+    """derive: one RoundTrip case per (stage, path)."""
+    out = []
+    for st in case.get("stages", []):
+        hk = st.get("hook") or {}
+        for path in ("dict", "yaml"):
+            if path not in hk:
+                continue
+            r = dict(hk[path])
+            r.update({"H": st["H"], "root": case["root"], "stage": st["name"], "path": path})
+            out.append(r)
+    return out
